@@ -210,11 +210,30 @@ fn gen(tier: Tier) -> Vec<XCase> {
     // pointer name are among them: 0xb11, 0xbad, 0xb, 0x0b0b, 0xe, 0xabcdef, 0xface, 0xdead)
     let lit_values: Vec<i64> = vec![
         0, 1, 7, 8, 9, 10, 15, 16, 32, 48, 63, 64, 65, 97, 122, 126, 127, 128, 255, 256, 511, 512, 1000, 4095, 4096, 32767,
-        32768, 65535, 65536, 1 << 31, 1 << 32, 1 << 62, i64::MAX, 0xb, 0xb11, 0xbad, 0xb0b, 0xb1, 0xb0, 0xe, 0xabcdef, 0xface, 0xdead, 0xb10, 0xb101,
+        32768, 65535, 65536, 1 << 31, 1 << 32, 1 << 62, i64::MAX, 11, 12, 160, 233, 0xb, 0xb11, 0xbad, 0xb0b, 0xb1, 0xb0, 0xe, 0xabcdef, 0xface, 0xdead, 0xb10, 0xb101,
     ];
+    // a unary operator directly on another one, over the values at the ends of the range (the
+    // lowest value can only be computed): nothing is simplified away, every step is checked
+    {
+        let lowest = bin(BinOp::Sub, un(UnOp::Neg, num(i64::MAX)), num(1));
+        let lowest_shift = bin(BinOp::Shl, num(1), num(63));
+        let operands = vec![lowest.clone(), lowest_shift, num(i64::MAX), un(UnOp::Neg, num(i64::MAX)), num(0), num(1), un(UnOp::Neg, num(1)), E::Sym("K_Neg".into(), -3)];
+        for x in operands.iter() {
+            for u1 in UNOPS {
+                for u2 in UNOPS {
+                    v.push(XCase { e: un(u1, un(u2, x.clone())), group: "unary-unary" });
+                    for u3 in UNOPS {
+                        v.push(XCase { e: un(u1, un(u2, un(u3, x.clone()))), group: "unary-unary" });
+                    }
+                }
+            }
+        }
+    }
     for val in &lit_values {
         for r in [Radix::Dec, Radix::HexDollar, Radix::Hex0xLower, Radix::Hex0xUpper, Radix::Bin, Radix::Oct, Radix::Char, Radix::HexDollarLead0, Radix::HexDollarUpper, Radix::Hex0xLead0, Radix::BinLead0, Radix::OctLead0] {
-            if r == Radix::Char && !((32..=126).contains(val) && *val != 39 && *val != 34) {
+            // character literals: printable ASCII, and a raw tab, vertical tab, form feed, no-break
+            // space and accented letter (the value is the character's code)
+            if r == Radix::Char && !(((32..=126).contains(val) && *val != 39 && *val != 34) || [9, 11, 12, 160, 233].contains(val)) {
                 continue;
             }
             v.push(XCase { e: E::Num(*val, r), group: "literals" });
